@@ -11,6 +11,8 @@ Definition hb_update_timeout (H : Z) : Z := Z.max (Z.quot H 2) (1 * sec).
 Definition hb_max_failures : Z := 3.
 (* C11: default grace period max(3 H, 5 s) *)
 Definition default_grace (H : Z) : Z := Z.max (3 * H) (5 * sec).
+(* C11: the verification after a reconnect starts after a settling delay of 100 ms *)
+Definition verify_settle_delay : Z := 100 * ms.
 (* C12: MaxConsecutiveFailures, default 3; each check gets a context expiring within 100 ms *)
 Definition health_threshold (m : Z) : Z := if m <=? 0 then 3 else m.
 Definition health_check_timeout : Z := 100 * ms.
